@@ -271,11 +271,13 @@ func mainRun(args []string) int {
 	shrinkSec := fs.Float64("shrink-seconds", 20, "")
 	hashesPath := fs.String("hashes", "", "determinism self-test: write per-scenario outcome hashes here")
 	capPath := fs.String("capture-fds", "", "redirect this process's real fd 1/2 to this file and watch it")
+	obsOnly := fs.Bool("obs-hashes", false, "with --hashes: hash the observable outcome only (no step counts, no seam trace)")
 	reverse := fs.Bool("reverse", false, "run this worker's scenarios from the last to the first (what the process has seen before differs then)")
 	fs.Parse(args)
 	if *capPath != "" {
 		captureRealFds(*capPath)
 	}
+	obsHashOnly = *obsOnly
 	perIndex := map[string]string{}
 	p := properties[*prop]
 	if p == nil {
@@ -313,6 +315,9 @@ func mainRun(args []string) int {
 		execHashes = nil
 		if *hashesPath != "" {
 			h := hashStr(mustJSON(sc)) ^ hashStr(v.Sig+"|"+v.Class+"|"+v.Msg+"|"+v.NotJudged)
+			if obsHashOnly {
+				h = hashStr(mustJSON(sc)) ^ hashStr(v.Class+"|"+v.NotJudged) // (the signature names the map-range sites visited: cost, not outcome)
+			}
 			for i, x := range hs {
 				h = mix64(h ^ x ^ uint64(i))
 			}
